@@ -64,6 +64,14 @@ type fedSpec struct {
 
 var fedEnum = []string{"RED", "GREEN", "BLUE"}
 
+// fedBias lets a world shift the generator towards the configurations its property is about (set
+// before newFedEnv, restored afterwards): the C08 world wants several subgraphs and many @requires
+// edges, because fetch dependencies are what it checks.
+var fedBias = struct {
+	minSub   int
+	requires float64
+}{minSub: 2, requires: 0.3}
+
 func (s *fedSpec) typ(name string) *fedType { return s.by[name] }
 
 func isScalarName(n string) bool {
@@ -110,6 +118,9 @@ func genFedSpec(W *core.Tape, rich bool, abstractMode int) *fedSpec {
 	nested := abstractMode > 0 // lists of lists come with the same switch as the abstract types
 	s.Seed = uint64(W.Intn(1 << 16))
 	s.NSub = 2 + W.Weighted([]int{3, 3, 2})
+	if s.NSub < fedBias.minSub {
+		s.NSub = fedBias.minSub
+	}
 	nEnt := 1 + W.Weighted([]int{2, 4, 3})
 	useValue := W.Prob(0.4)
 	if useValue {
@@ -231,7 +242,7 @@ func genFedSpec(W *core.Tape, rich bool, abstractMode int) *fedSpec {
 		// @requires: a String field computed from a scalar sibling owned by another subgraph
 		for _, e := range ents {
 			for _, g := range e.Fields {
-				if g.Type.Name != "String" || g.Type.List || !W.Prob(0.3) {
+				if g.Type.Name != "String" || g.Type.List || !W.Prob(fedBias.requires) {
 					continue
 				}
 				// chains are allowed (g requires f, f requires h, ...) as long as they stay acyclic:
